@@ -109,6 +109,14 @@ def gen(tier, rng):
                 for script in ("all", "skipone", "capone", "T os", "T bits", "T oid", "T integer", "T rs utf8", "tv P [ takeall ]", "tv P [ skipall ]", "tv P [ req 4294967295 slice ]"):
                     r = "meter run %s slice %s%s0000 %s" % (m, head, ln, script)
                     out.append(r); EXPECT[r] = (None, 8)
+    for m in modes:
+        for ln in ("8410000000", "84ffffffff", "8300ffff", "847fffffff"):
+            for script in ("all", "skipone", "capone", "T os", "tv P [ takeall ]", "tv P [ skipall ]", "skipall"):
+                for k in (2, 6, 1000):
+                    r = "meter run %s osrc%d 04%s04026162 %s" % (m, k, ln, script)
+                    out.append(r); EXPECT[r] = (None, 16)
+                    r = "meter run %s osrc%d 308004%s04026162 tc { %s }" % (m, k, ln, script)
+                    out.append(r); EXPECT[r] = (None, 18)
     return out
 
 def relational(reqs, answers):
